@@ -306,7 +306,12 @@ Qed.
 
 (* ------------------------------------------------------------------------------------------------ *)
 (* C11: the run invariant.  ds = blocks delivered so far, rs = blocks not yet delivered. *)
-Lemma run_stream_blocks g : forall sched p rest ds rs consumed,
+Lemma takeN_0 (l : bytes) : takeN 0 l = [].
+Proof. destruct l; reflexivity. Qed.
+Lemma dropN_0 (l : bytes) : dropN 0 l = l.
+Proof. destruct l; reflexivity. Qed.
+
+Lemma run_stream_blocks g : forall sched p rest ds rs consumed, Forall ign_nodata sched ->
   Forall wf_block rs -> p ++ rest = concat rs -> strictpre p rs ->
   consumed = lenN (concat ds ++ p) ->
   exists ds' rs' p' rest' consumed',
@@ -314,13 +319,14 @@ Lemma run_stream_blocks g : forall sched p rest ds rs consumed,
     ds ++ rs = ds' ++ rs' /\ p' ++ rest' = concat rs' /\ strictpre p' rs' /\ Forall wf_block rs' /\
     consumed' = lenN (concat ds' ++ p') /\ (exists mid, ds' = ds ++ mid).
 Proof.
-  induction sched as [|it sched IH]; intros p rest ds rs consumed Hwf Hcat Hp Hc.
+  induction sched as [|it sched IH]; intros p rest ds rs consumed Hnd Hwf Hcat Hp Hc.
   - exists ds, rs, p, rest, consumed. cbn [run_stream]. rewrite rev_involutive.
     repeat split; try assumption; try reflexivity. exists []. now rewrite app_nil_r.
   - cbn [run_stream]. unfold recvOff. cbn [tlvOff unread].
     pose proof (strictpre_short _ _ Hwf Hp) as Hshort. pose proof consts_buf_gt_max as Hbuf.
     replace (c_recvBufSize - (0 + lenN p) =? 0) with false by lia.
-    destruct it as [k|].
+    apply Forall_cons_iff in Hnd as [Hit Hnd'].
+    destruct it as [k|k].
     + set (chunk := takeN (N.min k (c_recvBufSize - (0 + lenN p))) rest).
       assert (Hrest : rest = chunk ++ dropN (lenN chunk) rest) by (symmetry; apply take_drop_N).
       assert (Hcat' : p ++ chunk ++ dropN (lenN chunk) rest = concat rs) by (rewrite <- Hrest; exact Hcat).
@@ -334,26 +340,27 @@ Proof.
       replace (rev nb ++ rev ds) with (rev (ds ++ nb)) by apply rev_app_distr.
       assert (Hc2 : consumed + lenN chunk = lenN (concat (ds ++ nb) ++ p')).
       { subst consumed. rewrite concat_app, <- app_assoc, <- Hu, !lenN_spec, !app_length. lia. }
-      destruct (IH p' (dropN (lenN chunk) rest) (ds ++ nb) rs' (consumed + lenN chunk) Hwr Hcat2 Hp' Hc2)
+      destruct (IH p' (dropN (lenN chunk) rest) (ds ++ nb) rs' (consumed + lenN chunk) Hnd' Hwr Hcat2 Hp' Hc2)
         as (ds' & rs'' & p'' & rest' & consumed' & Hrun & Heq & Hcat3 & Hp'' & Hwf'' & Hc' & (mid & Hmid)).
       exists ds', rs'', p'', rest', consumed'. repeat split; try assumption.
       * rewrite <- Heq. subst rs. now rewrite app_assoc.
       * exists (nb ++ mid). rewrite Hmid. now rewrite app_assoc.
-    + apply IH; assumption.
+    + cbn [ign_nodata] in Hit. subst k. rewrite N.min_0_l, takeN_0, app_nil_r. change (lenN []) with 0. rewrite dropN_0, N.add_0_r.
+      apply IH; assumption.
 Qed.
 
 (* C11 core theorem.  For every list of well-formed blocks (any number: the stream is unbounded, a run observes a finite
    prefix of it) and every read schedule (any chunking, zero-byte reads, ignorable errors), the framer ends normally,
    the frames it handed up are a prefix of the blocks - byte-identical, in order, none lost, duplicated, split or
    merged - and what is left in the buffer is a strict prefix of the next block, moved to the front (tlvOff = 0). *)
-Theorem framing_exact_lemma : forall bs sched, Forall wf_block bs ->
+Theorem framing_exact_lemma : forall bs sched, Forall ign_nodata sched -> Forall wf_block bs ->
   exists frames rs p consumed,
     run true (concat bs) sched = (SOk, frames, consumed, mkS 0 p) /\
     bs = frames ++ rs /\ strictpre p rs /\
     firstn (N.to_nat consumed) (concat bs) = concat frames ++ p.
 Proof.
-  intros bs sched Hwf. unfold run, s_init.
-  destruct (run_stream_blocks true sched [] (concat bs) [] bs 0 Hwf eq_refl (or_introl eq_refl) eq_refl)
+  intros bs sched Hnd Hwf. unfold run, s_init.
+  destruct (run_stream_blocks true sched [] (concat bs) [] bs 0 Hnd Hwf eq_refl (or_introl eq_refl) eq_refl)
     as (ds' & rs' & p' & rest' & consumed' & Hrun & Heq & Hcat & Hp & Hwf' & Hc & _).
   cbn [rev] in Hrun. exists ds', rs', p', consumed'. repeat split; try assumption.
   cbn [app] in Heq. subst bs. rewrite concat_app, <- Hcat, app_assoc.
@@ -361,12 +368,12 @@ Proof.
 Qed.
 
 (* when the whole stream has been consumed every block has been delivered *)
-Corollary framing_complete_lemma : forall bs sched, Forall wf_block bs ->
+Corollary framing_complete_lemma : forall bs sched, Forall ign_nodata sched -> Forall wf_block bs ->
   snd (fst (run true (concat bs) sched)) = lenN (concat bs) ->
   fst (fst (fst (run true (concat bs) sched))) = SOk /\ snd (fst (fst (run true (concat bs) sched))) = bs.
 Proof.
-  intros bs sched Hwf Hall.
-  destruct (framing_exact_lemma bs sched Hwf) as (frames & rs & p & consumed & Hrun & Hbs & Hp & Hfirst).
+  intros bs sched Hnd Hwf Hall.
+  destruct (framing_exact_lemma bs sched Hnd Hwf) as (frames & rs & p & consumed & Hrun & Hbs & Hp & Hfirst).
   rewrite Hrun in *. cbn [fst snd] in *. split; [reflexivity|].
   subst consumed. rewrite lenN_spec, Nat2N.id, firstn_all in Hfirst.
   rewrite Hbs, concat_app in Hfirst. apply app_inv_head in Hfirst.
@@ -381,12 +388,12 @@ Qed.
 
 (* compaction never corrupts a partially received block / the buffer never fills: part of the invariant above
    (tlvOff = 0 and fewer than MaxNDNPacketSize unread bytes after every Read), restated for the final state *)
-Corollary compaction_safe_never_full_lemma : forall bs sched, Forall wf_block bs ->
+Corollary compaction_safe_never_full_lemma : forall bs sched, Forall ign_nodata sched -> Forall wf_block bs ->
   let st := snd (run true (concat bs) sched) in
   tlvOff st = 0 /\ lenN (unread st) < c_MaxNDNPacketSize /\ recvOff st < c_recvBufSize.
 Proof.
-  intros bs sched Hwf.
-  destruct (framing_exact_lemma bs sched Hwf) as (frames & rs & p & consumed & Hrun & Hbs & Hp & _).
+  intros bs sched Hnd Hwf.
+  destruct (framing_exact_lemma bs sched Hnd Hwf) as (frames & rs & p & consumed & Hrun & Hbs & Hp & _).
   rewrite Hrun. cbn [snd tlvOff unread]. unfold recvOff. cbn [tlvOff unread].
   assert (Hwr : Forall wf_block rs) by (subst bs; exact (Forall_app_r _ _ _ Hwf)).
   pose proof (strictpre_short _ _ Hwr Hp). pose proof consts_buf_gt_max. repeat split; lia.
@@ -488,17 +495,20 @@ Qed.
 
 Definition sinv (s : sstate) : Prop := tlvOff s = 0 /\ lenN (unread s) < c_MaxNDNPacketSize.
 
-Lemma run_stream_total : forall sched s rest acc consumed,
+Lemma run_stream_total : forall sched s rest acc consumed, Forall ign_nodata sched ->
   sinv s -> Forall frame_ok acc ->
   forall res frames c st, run_stream true sched s rest acc consumed = (res, frames, c, st) ->
   (res = SOk \/ res = SErrTooMuch) /\ Forall frame_ok frames /\ recvOff st <= c_recvBufSize.
 Proof.
-  induction sched as [|it sched IH]; intros s rest acc consumed [Hoff Hun] Hacc res frames c st H.
+  induction sched as [|it sched IH]; intros s rest acc consumed Hnd [Hoff Hun] Hacc res frames c st H.
   - cbn [run_stream] in H. inversion H; subst. pose proof consts_buf_gt_max.
     split; [now left|]. split; [now apply Forall_rev|]. unfold recvOff. lia.
   - cbn [run_stream] in H. unfold recvOff in H. pose proof consts_buf_gt_max as Hbuf.
     replace (c_recvBufSize - (tlvOff s + lenN (unread s)) =? 0) with false in H by lia.
-    destruct it as [k|]; [|eapply IH; [split|exact Hacc|exact H]; assumption].
+    apply Forall_cons_iff in Hnd as [Hit Hnd'].
+    destruct it as [k|k].
+    2:{ cbn [ign_nodata] in Hit. subst k. rewrite N.min_0_l, takeN_0, app_nil_r in H. change (lenN []) with 0 in H. rewrite dropN_0, N.add_0_r in H.
+        eapply (IH (mkS (tlvOff s) (unread s))); [exact Hnd'|split; assumption|exact Hacc|exact H]. }
     set (chunk := takeN (N.min k (c_recvBufSize - (tlvOff s + lenN (unread s)))) rest) in *.
     assert (Hchunk : lenN chunk <= c_recvBufSize - lenN (unread s)).
     { pose proof (takeN_length_le (N.min k (c_recvBufSize - (tlvOff s + lenN (unread s)))) rest). fold chunk in H0. lia. }
@@ -509,7 +519,7 @@ Proof.
     assert (Hlu : lenN (unread s ++ chunk) = lenN (unread s) + lenN chunk) by (rewrite !lenN_spec, app_length; lia).
     destruct Hr as [-> | ->].
     + specialize (Hb eq_refl). replace (lenN un' <? c_MaxNDNPacketSize) with true in H by lia.
-      eapply (IH (mkS 0 un')); [split; cbn [tlvOff unread]; [reflexivity|exact Hb]|exact Hfr|exact H].
+      eapply (IH (mkS 0 un')); [exact Hnd'|split; cbn [tlvOff unread]; [reflexivity|exact Hb]|exact Hfr|exact H].
     + inversion H; subst. split; [now right|]. split; [now apply Forall_rev|].
       unfold recvOff. cbn [tlvOff unread]. lia.
 Qed.
@@ -517,13 +527,13 @@ Qed.
 (* No byte stream and no read schedule makes the framer panic or spin: it ends with nil (EOF) or with the
    "too much data"/"larger than the maximum packet size" error, every frame handed up is between 2 and
    MaxNDNPacketSize bytes, and the buffer offsets stay inside the buffer (a Read never gets an empty slice). *)
-Theorem stream_total_lemma : forall stream sched,
+Theorem stream_total_lemma : forall stream sched, Forall ign_nodata sched ->
   let '(res, frames, _, st) := run true stream sched in
   (res = SOk \/ res = SErrTooMuch) /\ Forall frame_ok frames /\ recvOff st <= c_recvBufSize.
 Proof.
-  intros stream sched. unfold run.
+  intros stream sched Hnd. unfold run.
   destruct (run_stream true sched s_init stream [] 0) as [[[res frames] c] st] eqn:E.
-  eapply (run_stream_total sched s_init stream [] 0); [split; cbn [s_init tlvOff unread]|constructor|exact E].
+  eapply (run_stream_total sched s_init stream [] 0); [exact Hnd|split; cbn [s_init tlvOff unread]|constructor|exact E].
   - reflexivity.
   - unfold c_MaxNDNPacketSize. cbv [lenN lenN_acc]. lia.
 Qed.
